@@ -116,3 +116,31 @@ impl HeaderInner {
         })
     }
 }
+
+#[cfg(anydb_verif)]
+impl HeaderInner {
+    /// Verification hook: decode a header and return its raw fields.
+    pub fn verif_from_bytes(bytes: &[u8]) -> Result<(u32, u32, u32, u64, u8)> {
+        let h = Self::from_bytes(bytes)?;
+        Ok((
+            u32::from(h.header_version),
+            u32::from(h.vec_version),
+            u32::from(h.computed_version),
+            u64::from(h.stamp),
+            h.format as u8,
+        ))
+    }
+
+    /// Verification hook: encode a header from raw fields.
+    pub fn verif_to_bytes(hv: u32, vv: u32, cv: u32, stamp: u64, format: Format) -> Vec<u8> {
+        Self {
+            header_version: Version::new(hv),
+            vec_version: Version::new(vv),
+            computed_version: Version::new(cv),
+            stamp: Stamp::new(stamp),
+            format,
+        }
+        .to_bytes()
+        .to_vec()
+    }
+}
